@@ -73,6 +73,11 @@ type parseContext struct {
 	// importBudget is the amount of import directives that still can be
 	// expanded, shared with contexts of all imported files.
 	importBudget *int
+
+	// macroBudget is the amount of memory (in bytes, roughly) the results of
+	// macro expansion still can take, shared with contexts of all imported
+	// files.
+	macroBudget *int
 }
 
 // maxImportExpansions is the limit on the total number of import directives
@@ -371,9 +376,10 @@ func (ctx *parseContext) readNodes() ([]Node, error) {
 	return res, nil
 }
 
-func readTree(r io.Reader, location string, expansionDepth int, importBudget *int) (nodes []Node, snips map[string][]Node, macros map[string][]string, err error) {
+func readTree(r io.Reader, location string, expansionDepth int, importBudget, macroBudget *int) (nodes []Node, snips map[string][]Node, macros map[string][]string, err error) {
 	ctx := parseContext{
 		importBudget: importBudget,
+		macroBudget:  macroBudget,
 		Dispenser:    lexer.NewDispenser(location, r),
 		snippets:     make(map[string][]Node),
 		macros:       map[string][]string{},
@@ -410,7 +416,8 @@ func readTree(r io.Reader, location string, expansionDepth int, importBudget *in
 
 func Read(r io.Reader, location string) (nodes []Node, err error) {
 	importBudget := maxImportExpansions
-	nodes, _, _, err = readTree(r, location, 0, &importBudget)
+	macroBudget := maxExpandedTotal
+	nodes, _, _, err = readTree(r, location, 0, &importBudget, &macroBudget)
 	nodes = expandEnvironment(nodes)
 	return
 }
